@@ -24,7 +24,7 @@ EXPLANATION = (
     "equal_range with first != second; FieldTrait_Hash_Array sizes itself by the greatest tag + 1 and maps tag → row index; R12.4 "
     "presorted_set::insert (class template and FieldTrait specialisation): the returned iterator is not derived from a pointer obtained "
     "before `delete[] _arr`; duplicate → (end(), false); R12.5 reverse tables: std::map<const char*, …, c_str_compare> whose comparator is "
-    "strcmp(a,b) < 0; R12.6 in both branches of insert the tail [where, end) is copied to insertion index + 1. NOT decided: arbitrary histories.")
+    "strcmp(a,b) < 0; R12.6 in both branches of insert the tail [where, end) is copied to insertion index + 1. R12.7 both direct-index arrays are cleared over their whole length before the keys are entered; R12.8 the tag -> row index has slots of at least 16 bits. NOT decided: arbitrary histories.")
 extra = {}
 
 
@@ -193,6 +193,39 @@ def run(ctx):
             s = rets[0].children[0].strip(casts=True)
             okc = okc or (s.k == 'BinaryOperator' and s.op == '<' and s.children[1].strip(casts=True).value == 0)
     ctx.check(okc and wired, 'R12.5', 'FIX8::F8MetaCntx::_comp#strict-order', r['file'].split('/')[-1], 'the comparator is strcmp(a, b) < 0 (a strict weak order)')
+    # ---------------- R12.7 / R12.8 the two direct-index arrays (tag -> entry in F8MetaCntx::_flu, tag -> row in FieldTrait_Hash_Array::_arr)
+    for recq, arr, szm in (('FIX8::F8MetaCntx', '_flu', '_flu_sz'), ('FIX8::FieldTrait_Hash_Array', '_arr', '_sz')):
+        ctors = [g for g in prog.all_functions() if g.kind == 'ctor' and g.rec == recq and len(g.param_ids) >= 2]
+        ctx.need(ctors, recq + ': constructor not found')
+        g = ctors[0]
+        ctx.saw(g)
+        clears = [c for c in g.calls() if c.callee_qp in ('std::fill', 'std::fill_n', 'memset', 'std::memset') and
+                  any(x.k == 'MemberExpr' and x.decl and x.decl.get('n') == arr for x in c.args[0].walk())]
+        ctx.need(len(clears) == 1, recq + ': initialisation of %s not found' % arr)
+        c = clears[0]
+        if c.callee_qp == 'std::fill':
+            lf = q.linear(c.args[1], sym=lambda x: 'ARR' if (x.strip(casts=True).k == 'MemberExpr' and x.strip(casts=True).decl.get('n') == arr) else
+                          'SZ' if (x.strip(casts=True).k == 'MemberExpr' and x.strip(casts=True).decl.get('n') == szm) else x.text())
+            whole = dict(lf.t) == {'ARR': 1, 'SZ': 1} and lf.c == 0
+            how = 'std::fill(%s, %s + %s, …)' % (arr, arr, szm)
+        else:
+            n3 = c.args[2]
+            has_sizeof = any(x.k == 'UnaryExprOrTypeTraitExpr' for x in n3.walk())
+            reads_sz = any(x.k == 'MemberExpr' and x.decl and x.decl.get('n') == szm for x in n3.walk())
+            whole = has_sizeof and reads_sz
+            how = '%s(…, %s)' % (c.callee_qp, n3.text())
+        ctx.check(whole, 'R12.7', recq + '::' + arr + '#cleared-whole', c.loc, 'every slot of the index is cleared before the present keys are entered (%s)' % how,
+                  'the index array %s is cleared by `%s`, which does not cover all %s slots (an element count used as a byte count): a slot of an absent key keeps '
+                  'whatever the heap held and the lookup reports a hit' % (arr, c.text(), szm))
+    ha_rec = [r for (t, r) in prog.records('FIX8::FieldTrait_Hash_Array')]
+    ctx.need(ha_rec, 'FieldTrait_Hash_Array record not found')
+    fld = [x for x in ha_rec[0]['fields'] if x['n'] == '_arr']
+    ty = prog.tus[0].types[fld[0]['t']] if fld else {}
+    pointee = prog.tus[0].types[ty['pointee']] if 'pointee' in ty else {}
+    ctx.check(pointee.get('bits', 0) >= 16, 'R12.8', 'FIX8::FieldTrait_Hash_Array::_arr#index-width', ha_rec[0]['file'].split('/')[-1],
+              'a slot of the tag -> row index is at least 16 bits wide (a message may have more than 255 fields)',
+              'a slot of the tag -> row index is %s bits wide: rows above 255 are truncated, the field is looked up at the wrong row and reported absent' % pointee.get('bits'))
+    ctx.floor('R12.7', 2)
     ctx.floor('R12.3', 7)
     ctx.floor('R12.4', 4)
     ctx.floor('R12.6', 2)
